@@ -23,6 +23,9 @@ type c10Case struct {
 	Script   clientScript `json:"client_script"`
 	Fault    string       `json:"stream_fault"`
 	LateSend bool         `json:"late_send"`
+	// Unencodable >= 0: that request carries a string field that is not valid
+	// UTF-8, so writing it to the client fails in the runner (proto.Marshal)
+	Unencodable int `json:"unencodable_request"`
 	SlowNode int          `json:"slow_node_permille"`
 }
 
@@ -128,11 +131,18 @@ func c10Gen(tape *simrt.Tape, tier string) *c10Case {
 		if sc.Fault == cfCut || sc.Fault == cfPremature {
 			sc.Fault = cfNone
 		}
-		sc.ExitAfterRead, sc.StopReadingAt, sc.IgnoreEOF = -1, -1, false
+		sc.StopReadingAt, sc.IgnoreEOF = -1, false
+		if sc.ExitAfterRead >= 0 && !tape.Bool(1, 2, "inprocess-exit-early") {
+			sc.ExitAfterRead = -1
+		}
 	}
 	c.Script = sc
 	c.Fault = cfNames[sc.Fault]
 	c.LateSend = tape.Bool(1, 2, "latesend")
+	c.Unencodable = -1
+	if tape.Bool(1, 12, "unencodable") {
+		c.Unencodable = tape.Choose(n, "unencodable.req")
+	}
 	if tape.Bool(1, 6, "slownode") {
 		c.SlowNode = 1 + tape.Choose(30, "slowpermille")
 	}
@@ -177,6 +187,10 @@ func c10Body(tape *simrt.Tape, o simwork.Opts, res *simwork.Result) {
 		s := &c10Send{Req: reqIdx, Name: name, StartStep: sim.Steps(), AfterDone: late}
 		sends = append(sends, s)
 		req := &conformancev1.ClientCompatRequest{TestName: name}
+		if reqIdx >= 0 && reqIdx == cs.Unencodable {
+			req.Host = "not utf-8: \xff\xfe"
+			res.Faults["runner:unencodable-request"]++
+		}
 		s.Err = runner.sendRequest(req, func(n string, resp *conformancev1.ClientCompatResponse, err error) {
 			s.Callbacks++
 			s.Resp, s.CbErr, s.CbName = resp, err, n
